@@ -194,6 +194,12 @@ def expected(r, fmt):
             fill_initial_defaults(o["initial_state"])
     for q in p.values():
         fill_initial_defaults(q["initial_state"])
+    if fmt == "xml" and r.get("_untyped_lanelets"):
+        # outside C01's domain (the schema demands a lanelet type): the XML writer documents 'unknown' for a lanelet
+        # without type. Only used by checks that need such lanelets for another reason (C15).
+        for la in s["network"]["lanelets"].values():
+            if la["lanelet_type"] == ("set", []):
+                la["lanelet_type"] = ("set", ["UNKNOWN"])
     return s, p
 
 
